@@ -16,8 +16,6 @@ repaired (`C06_empty_topic_rejected`), so it no longer has to be kept out of
 the histories.
 -/
 import Mqtt.Proofs.TopicsRetainedHistory
-import Mqtt.Proofs.XlateTopics
-import Mqtt.Proofs.XlateValid
 
 namespace Mqtt.Properties.C06
 open Mqtt.Model.Topics Mqtt.Proofs.Topics Mqtt.Iface.Topics
@@ -403,38 +401,7 @@ example :
       ((mrun ops).retained [97, 47, 35]).map (·.map toRet) = some [⟨[97], 1, [1]⟩, ⟨[97, 47, 98], 0, [3]⟩] ∧
       ((mrun ops).retained [97, 47, 43]).map (·.map toRet) = some [⟨[97, 47, 98], 0, [3]⟩] := by decide
 
-/-! ### tie to the Go source: the level splitter is the regenerated translation
-
-`Mqtt.Generated.Xlate.Topics.nextTopicLevel` is produced from
-`topics/memtopics.go` by `extract/cmd/xlate` on every check (NOTES-xlate.md). -/
-
-/-- On every byte string the translation of the Go function `nextTopicLevel`
-returns what the model's level splitter returns (`ntlToSource`: an error made
-by `fmt.Errorf`, or level and remainder with a nil error); in particular the Go
-function never panics on a slice bound.  Every theorem above that goes through
-`levels` is therefore about the function in the source tree. -/
-theorem C06_nextTopicLevel_is_source (bs : List UInt8) :
-    Mqtt.Generated.Xlate.Topics.nextTopicLevel bs
-      = Mqtt.Proofs.XlateTopics.ntlToSource (nextTopicLevel bs) :=
-  Mqtt.Proofs.XlateTopics.nextTopicLevel_is_source bs
-
-/-- non-vacuity: "a/b" splits into "a" and "b"; "/x" yields the level "+"
-(the recorded empty-level quirk B3); "a#" is an error -/
-example :
-    Mqtt.Generated.Xlate.Topics.nextTopicLevel [97, 47, 98] = .ok ([97], [98], .nil) ∧
-    Mqtt.Generated.Xlate.Topics.nextTopicLevel [47, 120] = .ok ([43], [120], .nil) ∧
-    Mqtt.Generated.Xlate.Topics.nextTopicLevel [97, 35] = .ok ([], [], .dyn) := by decide
-
-/-- `checkTopic`, the test in front of the five entry points of `MemTopics`, is the model's
-(an error made by `fmt.Errorf` exactly for the empty topic and for topics beginning with '$';
-never an index panic) -/
-theorem C06_checkTopic_is_source (t : List UInt8) :
-    Mqtt.Generated.Xlate.Topics.checkTopic t
-      = .ok (if checkTopic t then Mqtt.Generated.Xlate.Err.dyn else Mqtt.Generated.Xlate.Err.nil) :=
-  Mqtt.Proofs.XlateValid.checkTopic_is_source t
-
-/-- `message.ValidQos`, which `Subscribe` and `Subscribers` call first, is the model's `validQos` -/
-theorem C06_ValidQos_is_source (q : UInt8) : Mqtt.Generated.Xlate.Message.ValidQos q = validQos q.toNat :=
-  Mqtt.Proofs.XlateValid.ValidQos_is_topics q
+/-! The tie to the Go source (the theorems `C06_…_is_source…` over the regenerated translation
+`Mqtt.Generated.Xlate`) is in `Properties/C06Source.lean`, which nothing imports. -/
 
 end Mqtt.Properties.C06
